@@ -2244,17 +2244,61 @@ def scen_C15(ctx):
         a = len(lines) - 1
         lines += ['db d0 db', 'map m0 d0 %s m %s' % (kt, g.params())] + g.read_only_session(kt, ks, n=ctx.scale(25, 80)) + ['closeall', 'snap db']
         b = len(lines) - 1
-        r = pair(ctx, 'readonly', i, lines, stats=g.stats)
+        r = pair(ctx, 'readonly', i, lines, stats=g.stats, oracle=readonly_oracle)
         il = r.get('impl_lines') or []
-        if r.get('ok') and len(il) > b and il[a] != il[b]:
-            ctx.violation('readonly_%d' % i, 'the files differ before and after a read-only session: `%s` vs `%s`' % (il[a][:200], il[b][:200]), lines)
+        if len(il) > b and il[a].startswith('snap') and il[b].startswith('snap') and il[a] != il[b]:
+            ctx.violation('readonly_bytes_%d' % i, 'the files differ before and after a read-only session: `%s` vs `%s`' % (il[a][:200], il[b][:200]), lines)
     parallel(one, range(ctx.scale(80, 600)))
+
+    # `small_records`: many short keys with one-byte values (all key and value pieces in the smallest size class, the value file
+    # smaller than the key file), several of them deleted so that free lists of one class hold two and more pieces; then the
+    # read-only session with every statistics call.  (seeded change C15k: a statistics walker decoded the free-list link of a
+    # free key piece as a value offset and sought there - beyond the end of the small value file, which grew)
+    def small_records(i):
+        g = G.G(ctx.seed, 'C15s', i)
+        r = g.rng
+        kt = G.KTS[i % 5]
+        ks = g.key_universe(kt, r.choice([20, 30, 45]))
+        lines = ['db d0 db', 'map m0 d0 %s m %s' % (kt, g.params(n=r.choice([4, 64, 256])))]
+        lines += ['put m0 %s %02x' % (G.hx(k), j % 200) for j, k in enumerate(ks)]
+        dels = r.sample(ks, r.randrange(2, 8))
+        lines += ['del m0 %s' % G.hx(k) for k in dels] + ['closeall', 'snap db']
+        a = len(lines) - 1
+        lines += ['db d0 db', 'map m0 d0 %s m %s' % (kt, g.params())] + g.read_only_session(kt, ks, n=ctx.scale(12, 40)) + ['stats m0', 'closeall', 'snap db']
+        b = len(lines) - 1
+        rr = pair(ctx, 'small_records', i, lines, stats=g.stats, oracle=readonly_oracle)
+        il = rr.get('impl_lines') or []
+        if len(il) > b and il[a].startswith('snap') and il[b].startswith('snap') and il[a] != il[b]:
+            ctx.violation('small_records_bytes_%d' % i, 'the files differ before and after a read-only session: `%s` vs `%s`' % (il[a][:200], il[b][:200]), lines)
+    parallel(small_records, range(ctx.scale(15, 90)))
     # read-only calls at byte level: no write, no set_len, no seek beyond the end of a file in the REAL trace of any read-only call
     io_traces(ctx, ctx.scale(30, 300), ctx.scale(2, 12), ctx.scale(4, 30), ctx.scale(10, 80))
 
 
+UPDATING = ('put', 'del', 'bulkput', 'bulkdel', 'putiter', 'putstr', 'delstr', 'bulkdelstr', 'bulkputstr', 'putint', 'delint', 'mutate', 'cpfile', 'truncfile', 'writefile')
+
+
 def readonly_oracle(segments, workdir, release=False):
-    return api_oracle(segments, workdir, release)
+    """the property statement of C15 on the implementation alone: the ideal maps (api_oracle), and the three files of every map are
+    byte for byte the same at two closes (`closeall; snap`) between which no updating call was made."""
+    v = api_oracle(segments, workdir, release)
+    if v:
+        return v
+    if segments and not isinstance(segments[0], list):
+        segments = [segments]
+    il, ist = impl_only(segments, os.path.join(workdir, 'ro'), release)
+    ops = [l for seg in segments for l in seg if l.strip() and not l.startswith('#')]
+    last = None
+    for j, op in enumerate(ops[:len(il)]):
+        k = op.split()[0]
+        if k in UPDATING:
+            last = None
+        elif k == 'snap' and j > 0 and ops[j - 1].split()[0] == 'closeall':
+            if last is not None and il[last] != il[j]:
+                return ('the files differ before and after a session of read-only calls only: op %d `%s` vs op %d `%s`'
+                        % (last, il[last][:200], j, il[j][:200]))
+            last = j
+    return None
 
 
 SCENARIOS['C15'] = scen_C15
